@@ -16,12 +16,14 @@
 (*                a separate FIFO mutex, sdheld); the server leaves its loop   *)
 (*                and launches every registered reader's cancel                *)
 (* cause[r]: why the context handed to reader r ended (first cause wins).      *)
-(* Time: now; a timer may fire late, never early.                              *)
+(* Time: now, the virtual clock of a synctest bubble (see Tick).                *)
 (* GraceFromAdmission = TRUE is a defect variant: the grace period is counted  *)
 (* from the reader's admission instead of from the writer's arrival.           *)
 EXTENDS LockContract
 
-CONSTANTS Readers, Writers, Rounds, Grace, MaxT, AllowShutdown, AllowParentCancel, GraceFromAdmission
+CONSTANTS Readers, Writers, Rounds, Grace, MaxT, AllowShutdown, AllowParentCancel, GraceFromAdmission,
+          ErrButAdmitted   \* TRUE: defect variant - RLock's second select also returns on the caller's context, although
+                           \* the serving goroutine may admit (register) the reader all the same
 G == Readers \cup Writers
 
 VARIABLES now, closed, chq, srv, sg, lslot, reg, grace, cause, admittedAt, resp, pcancelled, told,
@@ -61,6 +63,7 @@ RSelect2(g) == /\ g \in Readers /\ pc[g] = "wait"
                /\ \/ closed /\ pc' = [pc EXCEPT ![g] = "reterr"]
                   \/ resp[g] = "ok" /\ pc' = [pc EXCEPT ![g] = "ret"]
                   \/ resp[g] = "err" /\ pc' = [pc EXCEPT ![g] = "reterr"]
+                  \/ ErrButAdmitted /\ pcancelled[g] /\ pc' = [pc EXCEPT ![g] = "reterr"]
                /\ UNCHANGED <<now, closed, chq, srv, sg, lslot, reg, grace, cause, admittedAt, resp, pcancelled, told, sdheld, viaSd, left, c>>
 (* Lock, outercancel.go:148-169 *)
 WSelect1(g) == /\ g \in Writers /\ pc[g] = "call"
@@ -135,11 +138,14 @@ ParentCancel(r) == /\ AllowParentCancel /\ pc[r] \in {"call", "wait", "ret", "in
                    /\ UNCHANGED <<now, closed, chq, srv, sg, lslot, reg, grace, admittedAt, resp, sdheld, viaSd, pc, left>>
 Shutdown == /\ AllowShutdown /\ ~closed /\ closed' = TRUE /\ c' = CNext(c, [ev |-> "shutdown"])
             /\ UNCHANGED <<now, chq, srv, sg, lslot, reg, grace, cause, admittedAt, resp, pcancelled, told, sdheld, viaSd, pc, left>>
-(* Observation discipline of the harness (testing/synctest bubble): the virtual clock moves only while every *)
-(* client goroutine is blocked, so a client records the return of its call at the instant the call returned. *)
-(* The library's own goroutines (server, grace timers) may be arbitrarily late.                              *)
+(* Observation discipline of the harness (testing/synctest bubble): the virtual clock moves only while EVERY        *)
+(* goroutine of the bubble is blocked - the clients (so a client records the return of its call at the instant the  *)
+(* call returned), the serving goroutine and the grace timers (a timer fires at its deadline, never early; nothing  *)
+(* else can happen in between).  The contract's "writer delayed with nothing held" law relies on it.               *)
 ClientRuns == \E g \in G : ENABLED (RSelect1(g) \/ RSelect2(g) \/ WSelect1(g) \/ WSelect2(g) \/ WShutdownLock(g) \/ Ret(g) \/ RetErr(g) \/ RRelease(g) \/ WRelease(g))
-Tick == /\ now < MaxT /\ ~ClientRuns /\ now' = now + 1 /\ c' = CNext(c, [ev |-> "adv", now |-> now + 1])
+LibRuns == \/ ENABLED (SrvRecv \/ SrvReaderGone \/ SrvAdmitReader \/ SrvWriterSlot \/ SrvWriterGrant \/ SrvExit)
+           \/ \E r \in Readers : ENABLED GraceFire(r)
+Tick == /\ now < MaxT /\ ~ClientRuns /\ ~LibRuns /\ now' = now + 1 /\ c' = CNext(c, [ev |-> "adv", now |-> now + 1])
         /\ UNCHANGED <<closed, chq, srv, sg, lslot, reg, grace, cause, admittedAt, resp, pcancelled, told, sdheld, viaSd, pc, left>>
 
 Progress == \/ SrvRecv \/ SrvReaderGone \/ SrvAdmitReader \/ SrvWriterSlot \/ SrvWriterGrant \/ SrvExit
